@@ -581,3 +581,23 @@ Example ex_tree_an_runs :
   | _ => (Err ESyntax, Err ESyntax)
   end = (Ok true, Ok false).
 Proof. vm_compute. reflexivity. Qed.
+
+(* C16 on the grammar: the flag Regex::new computes is exactly "the specification says the regex
+   matches the empty string" *)
+Theorem grammar_nullable_exact xpath a fls :
+  ok_a xpath a = true -> existsb (N.eqb 59) fls = false ->
+  match spec_flags xpath fls with
+  | Valid sf =>
+      s_q sf = false -> s_x sf = false ->
+      exists re r, regex_new true xpath (show_a a) fls = Ok re /\ spec_parse xpath (show_a a) = Valid r
+                   /\ r_nullable re = spec_is_match sf [] r
+  | _ => True
+  end.
+Proof.
+  intros Hok Hsep.
+  pose proof (grammar_end_to_end xpath a fls [] Hok Hsep (eq_refl : (N.of_nat (length (@nil N)) < umax)%N)) as G.
+  destruct (spec_flags xpath fls) as [sf| |]; try exact I.
+  intros Hq Hx. destruct (G Hq Hx) as (re & r & E & Er & Em). exists re, r. split; [exact E|]. split; [exact Er|].
+  destruct (nullable_def true xpath (show_a a) fls re E) as (s' & Hn).
+  unfold is_match in Em. rewrite Hn in Em. destruct (r_nullable re); cbn [mres_bool rbind] in Em; congruence.
+Qed.
